@@ -675,7 +675,7 @@ func c17Unordered(c *run.Ctx, k int, wrapCounter bool) {
 
 	if keep != nil {
 		// the late answer completes the open request
-		if cn := w.Cur(); cn != nil && dropID != 0 {
+		if cn := w.CurConn(); cn != nil && dropID != 0 {
 			cn.Send(wire.Suback(dropID, 0), "SUBACK (late)")
 		}
 		if !waitCalls([]*req{keep}, "late answer to the long-open request") {
